@@ -144,6 +144,30 @@ func (l *RPCLog) endMsg(ev *Event, err error, out []byte) {
 	l.mu.Unlock()
 }
 
+// HandlerMetadata returns the metadata the handler saw in its stream context.
+func (l *RPCLog) HandlerMetadata() (map[string]string, bool) {
+	l.mu.Lock()
+	defer l.mu.Unlock()
+	return l.HandlerMeta, l.HandlerHasMD
+}
+
+// ClientState reports whether the client side of the RPC started and whether it is done.
+func (l *RPCLog) ClientState() (started, done bool) {
+	l.mu.Lock()
+	defer l.mu.Unlock()
+	return l.ClientStart, l.ClientDone
+}
+
+// CancelRPC cancels the RPC's client context (if it has started).
+func (l *RPCLog) CancelRPC() {
+	l.mu.Lock()
+	c := l.Cancel
+	l.mu.Unlock()
+	if c != nil {
+		c()
+	}
+}
+
 // HandlerState reports whether the handler started and whether it returned.
 func (l *RPCLog) HandlerState() (ran, done bool) {
 	l.mu.Lock()
@@ -478,7 +502,15 @@ func (x *Exec) Probe(tag uint64) (string, *RPCLog) {
 // Validate rejects scripts that deadlock by construction (both sides waiting to
 // receive with nothing in flight). It is an abstract simulation of the two
 // scripts with unbounded buffering.
-func Validate(s *Script) bool {
+func Validate(s *Script) bool { return validate(s, false) }
+
+// ValidateStrict is Validate under the tightest buffering any configuration
+// has: a send completes only once every earlier message of that direction has
+// been received (or the peer is gone). A script that ends under this model ends
+// under every looser one.
+func ValidateStrict(s *Script) bool { return validate(s, true) }
+
+func validate(s *Script, strict bool) bool {
 	if s.Unary {
 		return true
 	}
@@ -501,6 +533,29 @@ func Validate(s *Script) bool {
 			return true
 		}
 		a := me.acts[me.pc]
+		if strict && (a.Op == 's' || a.Op == 'u' || a.Op == 'S' || a.Op == 'P') {
+			if me.sent > peer.got && !peer.ended {
+				return false
+			}
+			n := 1
+			if a.Op == 'S' {
+				n = a.Size
+			} else if a.Op == 'P' {
+				n = 4 * a.Size
+			}
+			if me.remainingInBurst == 0 {
+				me.remainingInBurst = n
+			}
+			me.sent++
+			me.remainingInBurst--
+			if me.remainingInBurst == 0 {
+				me.pc++
+			}
+			return true
+		}
+		if strict && (a.Op == 'h' || a.Op == 'c') && me.sent > peer.got && !peer.ended {
+			return false // the control packet queues behind the unreceived message
+		}
 		switch a.Op {
 		case 's', 'u':
 			me.sent++
